@@ -82,7 +82,9 @@ pub fn run(out: &mut Out, seed: u64, tier: &str) {
     let mut cli_runs = 0usize;
     if std::path::Path::new(&cli_path()).exists() {
         for k in 0..n_cli {
-            let m = distort(&mols[(k * 7 + 13) % mols.len()], 0.1, &mut rng);
+            // every other input is a random molecule (clusters of arbitrary elements among them): such runs rarely converge within
+            // the budget, which is where a run-to-run difference in rounding gets amplified into visibly different structures
+            let m = if k % 2 == 1 { let r = random_mol(&mut rng); distort(&r, 0.05, &mut rng) } else { distort(&mols[(k * 7 + 13) % mols.len()], 0.1, &mut rng) };
             if m.n() > 12 || m.min_distance() < 0.6 { continue; }
             let mut first: Option<Vec<u8>> = None;
             for r in 0..cli_reps {
